@@ -426,6 +426,9 @@ func main() {
 					}
 					g.Emit("H "+hxList(ss), true, "hold-random")
 				}
+				// sizes around the powers of two, single-class strings (scale.go); before the long random
+				// cases so that the first failing input reported is a structured one
+				scaleC15(g)
 				// long arguments: results larger than any small-buffer threshold, still held
 				for i := 0; i < g.Scale(60, 1500); i++ {
 					n := 2 + g.R.Intn(4)
@@ -503,7 +506,6 @@ func main() {
 					}()
 				}
 				wg.Wait()
-				scaleC15(g)
 			case "C16":
 				// every byte value alone and inside a word: the whole byte->class map is exercised
 				for b := 0; b < 256; b++ {
@@ -584,6 +586,9 @@ func main() {
 						sess(s, pickFrags(2))
 					}
 				}
+				// runs, tokens and token counts around the powers of two (scale.go); before the long random
+				// inputs so that the first failing input reported is a structured one
+				scaleC16(g)
 				// inputs longer than bufio's 4096-byte buffer: Split, a full scan and Rest at several
 				// depths under the fragmentations that align with, straddle or ignore the buffer size
 				for i := 0; i < g.Scale(6, 150); i++ {
@@ -643,7 +648,6 @@ func main() {
 						}
 					}
 				}
-				scaleC16(g)
 			}
 		})
 }
